@@ -458,6 +458,7 @@ func genC03(repo string) (string, error) {
 		return "", err
 	}
 	rows = nil
+	var kindRows []string
 	for _, c := range cls {
 		if c.types == nil {
 			return "", fmt.Errorf("%s: loadVals: unexpected default clause", lf.pos(c.node))
@@ -466,11 +467,17 @@ func genC03(repo string) (string, error) {
 		if alloc == "" {
 			return "", fmt.Errorf("%s: loadVals: cannot classify how the value slice of case %v is allocated", lf.pos(c.node), c.types)
 		}
+		kind := vxReturnedVectorKind(lf, c.node)
+		if kind == "" {
+			return "", fmt.Errorf("%s: loadVals: cannot find the vector constructor returned by case %v", lf.pos(c.node), c.types)
+		}
 		for _, t := range c.types {
 			rows = append(rows, fmt.Sprintf("(%s, %s)", leanStr(vxShort(t)), leanStr(alloc)))
+			kindRows = append(kindRows, fmt.Sprintf("(%s, %s)", leanStr(vxShort(t)), leanStr(kind)))
 		}
 	}
 	fmt.Fprintf(&b, "def loadValsCases : List (String × String) :=\n  [%s]\n", strings.Join(rows, ",\n   "))
+	fmt.Fprintf(&b, "def loadValsKinds : List (String × String) :=\n  [%s]\n", strings.Join(kindRows, ", "))
 	// what follows the switch: must be the "unknown type" error return
 	last := fd.Body.List[len(fd.Body.List)-1]
 	fmt.Fprintf(&b, "def loadValsFallthrough : String := %s\n", leanStr(vxFallthrough(renderStmt(lf, last))))
@@ -673,6 +680,21 @@ func vxAllocClass(f *file, cc *ast.CaseClause) string {
 		return ""
 	}
 	return "alloc"
+}
+
+// vxReturnedVectorKind: the X of the `vector.NewX(…)` a loadVals clause returns (a Bool
+// vector is built with NewBoolEmpty and returned through a variable).
+func vxReturnedVectorKind(f *file, cc *ast.CaseClause) string {
+	kind := ""
+	ast.Inspect(cc, func(n ast.Node) bool {
+		if c, ok := n.(*ast.CallExpr); ok {
+			if name, ok := selName(c.Fun); ok && strings.HasPrefix(name, "vector.New") {
+				kind = strings.TrimSuffix(strings.TrimPrefix(name, "vector.New"), "Empty")
+			}
+		}
+		return true
+	})
+	return kind
 }
 
 func vxFallthrough(s string) string {
